@@ -206,6 +206,14 @@ def run(ctx: Ctx):
     from .c18 import check_config_keys
 
     check_config_keys(ctx, "R06.c", only_keys={"delta"})
+    # ... and the file-based entry points (`main`) hand the delta they were given to get_code
+    from .c18 import check_value_forwarding, get_code_calls
+
+    for short_ in ("cli/gotran2py.py", "cli/gotran2c.py"):
+        mainf_, gcf_ = ctx.sm.func(short_, "main"), ctx.sm.func(short_, "get_code")
+        gvals_ = get_code_calls(ctx, short_)
+        if gvals_:
+            check_value_forwarding(ctx, "R06.c", mainf_, gvals_, gcf_, None, skip=set(gcf_.params) - {"delta", "scheme"})
     from .c12 import check_generator_purity
 
     # delta arrives as a keyword of CodeGenerator.scheme: a result remembered from an earlier call would carry the
